@@ -3,6 +3,7 @@
 use crate::json::J;
 
 pub mod bitmap;
+pub mod mem;
 
 pub struct RunInfo {
     /// non-trivial by the scenario's stated rule
@@ -43,6 +44,7 @@ pub fn all_scenarios() -> Vec<&'static dyn Scenario> {
     v.push(&bitmap::CONC);
     v.push(&bitmap::CANON);
     v.push(&bitmap::MODEL);
+    v.push(&mem::MEM);
     v
 }
 
@@ -78,6 +80,15 @@ pub fn checks() -> Vec<Check> {
         assumptions: COMMON_ASSUMPTIONS.to_vec(),
         real: vec!["vm_memory::bitmap::AtomicBitmap, BaseSlice/RefSlice/ArcSlice, Option<B>, () (compiled from /repo working tree)"],
         stub: vec!["actor interleaving at operation granularity (seeded)"],
+        needs_seam_events: true,
+    });
+    v.push(Check {
+        prop: "C04",
+        parts: vec![Part { scen: &mem::MEM, xen: false, quick: 150_000, thorough: 6_000_000 }],
+        rule: "runs are seeded histories of up to 30 accessor operations (buffers, objects, typed refs, element arrays, element-wise and slice-to-slice copies, atomics, references, in-memory streams) by 1-3 actors switched between operations on 1-2 containers (VolatileSlice over simulated RAM with guard pages and canaries, or an anonymous MmapRegion), reached through derivation chains; distinct = distinct event-log hash; non-trivial = at least one operation succeeded and at least one was rejected or cut off",
+        assumptions: COMMON_ASSUMPTIONS.to_vec(),
+        real: vec!["vm_memory::volatile_memory (VolatileSlice, VolatileRef, VolatileArrayRef, copy_slice_impl), Bytes, MmapRegion (compiled from /repo working tree)", "kernel mmap for the region container"],
+        stub: vec!["guest RAM: the simulator's own arena with PROT_NONE guard pages and canary bytes", "actor interleaving at operation granularity (seeded)"],
         needs_seam_events: true,
     });
     v
